@@ -53,7 +53,9 @@ def _mk(family, chunked):
         kinds = sorted(requests_for(family))
         kind = c.choose(kinds, 'request_kind')
         cl = c.choose(['exact', 'absent', 'empty'], 'content_length_form') if kind == 'valid' else 'exact'
-        h = Harness(c, family, chunked=chunked, content_length=cl)
+        from .pipeline import USER_OUTCOMES
+        h = Harness(c, family, chunked=chunked, content_length=cl,
+                    user_outcomes=USER_OUTCOMES + ['redirect_302', 'redirect_301', 'redirect_303'])
         abort = c.choose([None, 1], 'client_abort_after') if kind == 'valid' else None
         out = h.run_wsgi(kind, abort_after=abort)
         pep3333_checks(c, h, out, aborted=abort is not None)
